@@ -268,12 +268,17 @@ impl SampledFunction {
                 match self.order {
                     Interpolation::Linear => {
                         let (i, _, s) = self.input[0].map(x[0]);
-                        let idx = i * n_out;
+                        // the sample position is computed from the input and the file's /Encode:
+                        // samples outside the table count as absent (as in the 2 and 3 input cases)
+                        let row = |i: usize| -> &[u8] {
+                            i.checked_mul(n_out).and_then(|idx| self.data.get(idx..)).unwrap_or(&[])
+                        };
 
-                        for (o, &a) in out.iter_mut().zip(&self.data[idx..]) {
+                        out.fill(0.0);
+                        for (o, &a) in out.iter_mut().zip(row(i)) {
                             *o = a as f32 * (1. - s);
                         }
-                        for (o, &b) in out.iter_mut().zip(&self.data[idx + n_out..]) {
+                        for (o, &b) in out.iter_mut().zip(row(i.saturating_add(1))) {
                             *o += b as f32 * s;
                         }
                     }
@@ -284,14 +289,17 @@ impl SampledFunction {
                 Interpolation::Linear => {
                     let (i0, s0, f0) = self.input[0].map(x[0]);
                     let (i1,  _, f1) = self.input[1].map(x[1]);
-                    let (j0, j1) = (i0+1, i1+1);
+                    let (j0, j1) = (i0.saturating_add(1), i1.saturating_add(1));
                     let (g0, g1) = (1. - f0, 1. - f1);
                     
                     out.fill(0.0);
-                    let mut add = |i0, i1, f| {
-                        let idx = (i0 + s0 * i1) * n_out;
+                    let mut add = |i0: usize, i1: usize, f| {
+                        let range = s0.checked_mul(i1)
+                            .and_then(|n| n.checked_add(i0))
+                            .and_then(|n| n.checked_mul(n_out))
+                            .and_then(|idx| Some(idx .. idx.checked_add(n_out)?));
                         
-                        if let Some(part) = self.data.get(idx .. idx+n_out) {
+                        if let Some(part) = range.and_then(|r| self.data.get(r)) {
                             for (o, &b) in out.iter_mut().zip(part) {
                                 *o += f * b as f32;
                             }
@@ -310,14 +318,19 @@ impl SampledFunction {
                     let (i0, s0, f0) = self.input[0].map(x[0]);
                     let (i1, s1, f1) = self.input[1].map(x[1]);
                     let (i2,  _, f2) = self.input[2].map(x[2]);
-                    let (j0, j1, j2) = (i0+1, i1+1, i2+1);
+                    let (j0, j1, j2) = (i0.saturating_add(1), i1.saturating_add(1), i2.saturating_add(1));
                     let (g0, g1, g2) = (1. - f0, 1. - f1, 1. - f2);
                     
                     out.fill(0.0);
-                    let mut add = |i0, i1, i2, f| {
-                        let idx = (i0 + s0 * (i1 + s1 * i2)) * n_out;
+                    let mut add = |i0: usize, i1: usize, i2: usize, f| {
+                        let range = s1.checked_mul(i2)
+                            .and_then(|n| n.checked_add(i1))
+                            .and_then(|n| n.checked_mul(s0))
+                            .and_then(|n| n.checked_add(i0))
+                            .and_then(|n| n.checked_mul(n_out))
+                            .and_then(|idx| Some(idx .. idx.checked_add(n_out)?));
                         
-                        if let Some(part) = self.data.get(idx .. idx+n_out) {
+                        if let Some(part) = range.and_then(|r| self.data.get(r)) {
                             for (o, &b) in out.iter_mut().zip(part) {
                                 *o += f * b as f32;
                             }
@@ -394,12 +407,12 @@ impl PsFunc {
                 PsOp::Roll => {
                     let j = stack.pop().ok_or(PostScriptError::StackUnderflow)? as isize;
                     let n = stack.pop().ok_or(PostScriptError::StackUnderflow)? as usize;
-                    let start = stack.len() - n;
+                    // n and j are computed by the program: n may exceed the stack, |j| may exceed n
+                    let start = stack.len().checked_sub(n).ok_or(PostScriptError::StackUnderflow)?;
                     let slice = &mut stack[start..];
-                    if j > 0 {
-                        slice.rotate_right(j as usize);
-                    } else {
-                        slice.rotate_left(-j as usize);
+                    if n > 0 {
+                        // rolling by j is rolling by j modulo n (n <= stack.len() fits an isize)
+                        slice.rotate_right(j.rem_euclid(n as isize) as usize);
                     }
                 }
                 PsOp::Index => {
